@@ -182,7 +182,15 @@ type OpRes struct {
 	Dot      interface{}       `json:"dot"`
 	DotText  *string           `json:"dotText,omitempty"`
 	DotNames *DotNames         `json:"dotNames,omitempty"`
+	VizJoin  *VizJoin          `json:"vizJoin,omitempty"`
 	PanicMsg string            `json:"panicMsg,omitempty"`
+}
+
+// VizJoin is what Visualize and CanVisualizeError do with the error of a failed Invoke wrapped in a multi-error.
+type VizJoin struct {
+	Can   bool   `json:"can"`
+	Same  bool   `json:"same"`
+	Panic string `json:"panic,omitempty"`
 }
 
 // DotNames is what package reflect and the runtime know about a picture and the model does not (K-dottext):
